@@ -352,6 +352,7 @@ class ReadZipFS(FS):
         self.encoding = encoding
         self._zip = zipfile.ZipFile(file, "r")
         self._directory_fs = None  # type: Optional[MemoryFS]
+        self._zip_names = {}  # type: Dict[Text, str]
 
     def __repr__(self):
         # type: () -> Text
@@ -367,6 +368,12 @@ class ReadZipFS(FS):
         path = relpath(normpath(path))
         if self._directory.isdir(path):
             path = forcedir(path)
+        # A member may be stored under a name which is not in normalised
+        # form ("a//b", "./a", "/a"); the directory lists it under its
+        # normalised path, so map that path back to the stored name.
+        zip_name = self._zip_names.get(path)
+        if zip_name is not None:
+            return zip_name
         if six.PY2:
             return path.encode(self.encoding)
         return path
@@ -385,9 +392,13 @@ class ReadZipFS(FS):
                         resource_name = resource_name.decode(self.encoding, "replace")
                     if resource_name.endswith("/"):
                         _fs.makedirs(resource_name, recreate=True)
+                        _name = forcedir(relpath(normpath(resource_name)))
                     else:
                         _fs.makedirs(dirname(resource_name), recreate=True)
                         _fs.create(resource_name)
+                        _name = relpath(normpath(resource_name))
+                    # (the last member of a name wins, as in ZipFile.NameToInfo)
+                    self._zip_names[_name] = zip_name
             return self._directory_fs
 
     def getinfo(self, path, namespaces=None):
